@@ -23,7 +23,12 @@ def handle (j : Json) : Except String Json := do
     let layered := match findComp d.comps i n with
       | some c => jsonOfResult (layerAll (.dict []) (layers d P c))
       | none => Json.null
-    return jobj [("result", jsonOfResult (resolve d P i n prim fuel)), ("vars", vars), ("layered", layered)]
+    let result := match j.getObjVal? "flags" with
+      | .ok fj => match flagsOfJson fj with
+        | .ok f => resolveF d P i n f fuel
+        | .error _ => .error .unsupported
+      | .error _ => resolve d P i n prim fuel
+    return jobj [("result", jsonOfResult result), ("vars", vars), ("layered", layered)]
   | "interp" =>
     let ctx ← fieldsOfJson (← j.getObjVal? "ctx")
     let s ← getChars j "s"
